@@ -423,12 +423,19 @@ class MemoryTags(Tags):
             Tuple of (updates, conflicts).
         """
         source_dict = self.get_tag_dict()
-        dest_dict = to_tags.get_tag_dict()
-        result, updates, conflicts = _reconcile_tags(
-            source_dict, dest_dict, overwrite, selector
-        )
-        if result != dest_dict:
-            to_tags._set_tag_dict(result)
+        with contextlib.ExitStack() as stack:
+            # Read, reconcile and write the destination under one write lock
+            # (when it is a branch's tag store): another writer's tag set
+            # between the read and the write would otherwise be lost.
+            target_branch = getattr(to_tags, "branch", None)
+            if target_branch is not None:
+                stack.enter_context(target_branch.lock_write())
+            dest_dict = to_tags.get_tag_dict()
+            result, updates, conflicts = _reconcile_tags(
+                source_dict, dest_dict, overwrite, selector
+            )
+            if result != dest_dict:
+                to_tags._set_tag_dict(result)
         return updates, conflicts
 
 
